@@ -40,7 +40,10 @@ type LinearState struct {
 
 	Facts map[string]RawFact
 
+	// cachedRules is protected by cacheMutex, not by the state
+	// lock: it is used before and after the locked sections.
 	cachedRules map[string]*Rule
+	cacheMutex  sync.Mutex
 
 	store Storage
 
@@ -154,7 +157,7 @@ func (s *LinearState) Load(ctx *Context) error {
 
 func (s *LinearState) Add(ctx *Context, id string, x Map) (string, error) {
 	Log(DEBUG, ctx, "LinearState.Add", "state", s.Name, "x", x, "id", id)
-	delete(s.cachedRules, id)
+	s.uncacheRule(id)
 	timer := NewTimer(ctx, "LinearState.Add")
 	defer timer.Stop()
 
@@ -215,7 +218,7 @@ func (s *LinearState) Rem(ctx *Context, id string) (bool, error) {
 
 func (s *LinearState) rem(ctx *Context, id string, lock bool) (bool, error) {
 	Log(DEBUG, ctx, "LinearState.rem", "id", id)
-	delete(s.cachedRules, id)
+	s.uncacheRule(id)
 	_, err := s.store.Remove(ctx, s.Name, []byte(id))
 	// ToDo: Consider what's returned.
 	if err != nil {
@@ -418,15 +421,15 @@ func (s *LinearState) FindCachedRules(ctx *Context, event Map) (map[string]*Rule
 
 	acc := make(map[string]*Rule)
 	for id, r := range rules {
-		if _, isCached := s.cachedRules[id]; isCached {
-			acc[id] = s.cachedRules[id]
+		if rule := s.cachedRule(id); rule != nil {
+			acc[id] = rule
 		} else {
 			rule, err := RuleFromMap(ctx, r)
 			if err != nil {
 				return nil, err
 			}
-			acc[id] = rule
-			s.cachedRules[id] = rule
+			rule.Id = id
+			acc[id] = s.cacheRule(id, rule)
 		}
 	}
 	return acc, nil
@@ -438,7 +441,7 @@ func (s *LinearState) Clear(ctx *Context) error {
 	// Maybe protect the store (above), too.
 	s.slock(ctx, false)
 	s.Facts = make(map[string]RawFact)
-	s.cachedRules = make(map[string]*Rule)
+	s.uncacheRules()
 	s.sunlock(ctx, false)
 	return err
 }
@@ -449,7 +452,7 @@ func (s *LinearState) Delete(ctx *Context) error {
 	// Maybe protect the store (above), too.
 	s.slock(ctx, false)
 	s.Facts = make(map[string]RawFact)
-	s.cachedRules = make(map[string]*Rule)
+	s.uncacheRules()
 	s.sunlock(ctx, false)
 	return err
 }
@@ -511,4 +514,36 @@ func (s *LinearState) expire(ctx *Context, id string, fact map[string]interface{
 	}
 
 	return expired, nil
+}
+
+func (s *LinearState) cachedRule(id string) *Rule {
+	s.cacheMutex.Lock()
+	rule := s.cachedRules[id]
+	s.cacheMutex.Unlock()
+	return rule
+}
+
+// cacheRule remembers the given rule unless another request did so
+// in the meantime.  Returns the cached rule.
+func (s *LinearState) cacheRule(id string, rule *Rule) *Rule {
+	s.cacheMutex.Lock()
+	if cached, have := s.cachedRules[id]; have {
+		rule = cached
+	} else {
+		s.cachedRules[id] = rule
+	}
+	s.cacheMutex.Unlock()
+	return rule
+}
+
+func (s *LinearState) uncacheRule(id string) {
+	s.cacheMutex.Lock()
+	delete(s.cachedRules, id)
+	s.cacheMutex.Unlock()
+}
+
+func (s *LinearState) uncacheRules() {
+	s.cacheMutex.Lock()
+	s.cachedRules = make(map[string]*Rule)
+	s.cacheMutex.Unlock()
 }
